@@ -17,7 +17,7 @@ CHECKS = {
               'against the MTProto-1.0 KDF; wrap (payload, new_nonce, server_nonce incl. leading zero bytes) for the key-exchange '
               'wrapper against a conformant peer. Non-trivial: raw input of >=3 blocks, msg of >=1 byte, every wrap case; '
               'distinct by hash of (kind,key,iv,data,nonces).'),
-        must_hit=['raw:blocks>=3', 'raw:refused-length', 'wrap:(20+len)%16=0', 'wrap:new_nonce-leading-zero-bytes=1',
+        must_hit=['raw:blocks>=3', 'raw:refused-length', 'wrap:(20+len)%16=0', 'wrap:nonce-objects-reused-in-place', 'wrap:new_nonce-leading-zero-bytes=1',
                   'wrap:server_nonce-leading-zero-bytes=1', 'msg:len%16=0', 'msg:len%16=15', 'concurrent:raw', 'concurrent:msg', 'concurrent:wrap'],
         assumptions=['crypto/aes single-block operations and crypto/sha1 of the Go standard library are correct',
                      'out-of-place use only (no caller of the cipher encrypts in place)',
@@ -155,7 +155,7 @@ CHECKS = {
         rule=('value = registered Go type x recorded builder choices (depth <= 3 quick / 6 thorough). Non-trivial: contains a multi-field group in present-mixed state, '
               'a boundary-length string (252..257, 65535..65536, 2^24-1), nesting depth >= 2, a vector of >= 2 elements, a 128/256-bit integer with a leading zero '
               'byte, or a non-finite/negative-zero double; distinct by hash of (type, choices).'),
-        must_hit=['concurrent:evaluations', 'feat:group-present-mixed', 'feat:str-len-252..257', 'feat:vector>=2', 'feat:depth>=2', 'feat:int128/256-leading-zero', 'feat:double-nonfinite-or-negzero',
+        must_hit=['concurrent:evaluations', 'first-use-concurrent', 'feat:group-present-mixed', 'feat:str-len-252..257', 'feat:vector>=2', 'feat:depth>=2', 'feat:int128/256-leading-zero', 'feat:double-nonfinite-or-negzero',
                   'feat:enum-member', 'feat:message-container', 'top-level-enum', 'feat:str-len%4=0', 'feat:str-len%4=1', 'feat:str-len%4=2', 'feat:str-len%4=3'],
         fold={'ctor:': ('constructors_covered', 1220), 'group:': ('flag_group_states_covered', 60)},
         assumptions=['values are canonical TL values: mandatory object fields non-nil, object/enum members of a present group non-nil, true-typed members equal the presence of their group',
@@ -273,9 +273,9 @@ CHECKS = {
         technique='fault enumeration over a generated baseline exchange against a scripted reference server (rapid + enumerated fault catalogue)',
         rule=('case = (baseline exchange, fault = step x field x corruption x bit position). Every executed fault is non-trivial; distinct by hash of the scenario. '
               'Oracle: CreateConnection returns a non-nil error (a panic is not an error return), no session file afterwards, no encrypted frame reaches the server, child alive.'),
-        must_hit=['step:resPQ', 'step:dhParams', 'step:dhInner', 'step:dhGen', 'fault:resPQ.fingerprints:empty', 'fault:dhInner.sha1:prefix-flip', 'fault:dhInner.sha1:content-flip',
+        must_hit=['step:resPQ', 'step:dhParams', 'step:dhInner', 'step:dhGen', 'fault:resPQ.fingerprints:other-clients-key', 'fault:resPQ.fingerprints:empty', 'fault:dhInner.sha1:prefix-flip', 'fault:dhInner.sha1:content-flip',
                   'fault:dhGen.new_nonce_hash:flip', 'fault:dhGen.kind:gen_retry', 'fault:dhGen.kind:gen_fail', 'fault:dhParams.kind:params_fail', 'aftermath sent: new-session', 'aftermath sent: bad-salt', 'aftermath sent: update', 'verdict:ok'],
-        fold={'fault:': ('fault_classes_covered', 59)},
+        fold={'fault:': ('fault_classes_covered', 60)},
         assumptions=['not generated because the statement does not list them: a different server_nonce in resPQ (the server chooses it), corrupted pq, g, dh_prime, g_a, server_time'],
     ),
     'C19': dict(
@@ -307,7 +307,7 @@ CHECKS = {
         technique='scenario-based property testing (rapid) with tagged requests against a scripted reference server; directed yield-point schedules',
         rule=('case = rpc scenario on a resumed session: callers x tagged requests, answer order/grouping/gzip/errors, optional hold of one sender until another request arrived, GOMAXPROCS. '
               'Non-trivial: >=2 requests answered out of order, a container, a gzip-packed result or a vector result; distinct by hash of the scenario.'),
-        must_hit=['feat:answered-out-of-order', 'feat:container', 'feat:gzip', 'feat:rpc-error', 'concurrent-callers', 'directed:answer-while-sender-in-send-path', 'feat:nested-container', 'feat:answers-to-requests-resent-after-salt-rotation', 'feat:repeated-result', 'feat:repeated-result-before-others-in-container', 'verdict:ok'] +
+        must_hit=['feat:answered-out-of-order', 'feat:container', 'feat:gzip', 'feat:rpc-error', 'concurrent-callers', 'directed:answer-while-sender-in-send-path', 'feat:nested-container', 'feat:answers-to-requests-resent-after-salt-rotation', 'feat:repeated-result', 'feat:repeated-result-before-others-in-container', 'server-history:answers-after-reconnect', 'verdict:ok'] +
                  ['feat:%s:%s' % (k, f) for k in ('object', 'bool', 'vecint', 'veclong', 'vecobj') for f in ('plain', 'container', 'gzip')],
         assumptions=['requests are made through MakeRequest / MakeRequestWithHintToDecoder with the hint the generated method of that function passes, followed by the same type assertion',
                      'a stall verdict needs a quiescent deadlocked state seen in two goroutine dumps; anything else after the patience is inconclusive',
@@ -315,8 +315,8 @@ CHECKS = {
     ),
     'C10': dict(
         pkg='./c10', test='TestC10', level='exploration', helpers={'vdriver': './cmd/vdriver'},
-        quick=dict(shards=8, checks=30, budget_s=900),
-        thorough=dict(shards=16, checks=700, budget_s=3400),
+        quick=dict(shards=8, checks=30, budget_s=900, extra=[dict(test='TestC10MsgID', checks=1, shards=1)]),
+        thorough=dict(shards=16, checks=700, budget_s=3400, extra=[dict(test='TestC10MsgID', checks=1, shards=2)]),
         level_text=('Invariants over the reference server\'s arrival-ordered log of everything the real client wrote in generated histories: 1..8 concurrent callers, server '
                     'answers in drawn orders/containers/gzip, server-initiated content-related (updates) and service (pong, acks, state info) messages plain and in containers, '
                     'and a directed inversion attempt (one sender held right after it took its msg_id until another sender\'s message has reached the server). Checked: msg_id '
@@ -325,7 +325,7 @@ CHECKS = {
         technique='history invariants over generated scenarios (rapid) with a directed yield-point schedule against a reference server',
         rule=('case = rpc scenario (callers, answer schedule, interleaved server pushes, optional hold at send.msgid, GOMAXPROCS). Non-trivial: the received stream has two '
               'adjacent requests or an acknowledgement interleaved with requests; distinct by hash of the scenario.'),
-        must_hit=['feat:adjacent-requests', 'feat:ack-interleaved-with-requests', 'feat:content-related-in-container', 'directed:hold-after-msgid', 'client-ping', 'server-history:repeated-result', 'server-history:content-related-push',
+        must_hit=['feat:adjacent-requests', 'feat:ack-interleaved-with-requests', 'feat:content-related-in-container', 'directed:hold-after-msgid', 'msgid-generator', 'client-ping', 'server-history:repeated-result', 'server-history:content-related-push',
                   'server-history:service-push', 'server-history:close-and-reconnect', 'feat:stream-continues-after-reconnect', 'concurrent-callers', 'verdict:ok'],
         assumptions=['seq_no: the statement demands parity and monotonicity, not the exact value 2*count',
                      'no clock hook: equal clock readings for two messages are unreachable here (a write system call separates two reads under the send lock)',
